@@ -204,6 +204,22 @@ func c16TieCases() []*pairCase {
 			}
 			add("NSX", pat, string(db), map[string]string{"router": string(sb)})
 		}
+		// NSX: several gateway policies are new at once (first roll-out);
+		// each uses an identical group of its own, the device holds one
+		// identical unused group.
+		{
+			var tg, tp []any
+			for i := 0; i < k && i < 5; i++ {
+				id := fmt.Sprintf("Netspoc-g%d", i)
+				tg = append(tg, nsxGroup(id, addrs))
+				r := nsxRule("r1", 20, gp+id, fmt.Sprintf("10.%d.9.9", i+1))
+				r["scope"] = []string{fmt.Sprintf("/infra/tier-0s/v%d", i+1)}
+				tp = append(tp, map[string]any{"id": fmt.Sprintf("Netspoc-v%d", i+1), "rules": []any{r}})
+			}
+			db, _ := json.Marshal(map[string]any{"groups": []any{nsxGroup("Netspoc-g7", addrs)}})
+			sb, _ := json.Marshal(map[string]any{"groups": tg, "policies": tp})
+			add("NSX", "nsx-several-new-policies", string(db), map[string]string{"router": string(sb)})
+		}
 
 		// PAN-OS: k identical address-groups on device.
 		panVsys := func(groups, rules string) string {
